@@ -10,12 +10,21 @@ From PV Require Import Proofs.ConcDefs Proofs.C07.
    (C07_refuted below; known finding "success on a consumer created by a failed request"). *)
 Definition consumers_preexist (reqs : list req) (d : db) : Prop :=
   forall r k, In r reqs -> In k (req_consumers r) -> has_consumer d (ci_uuid k) /\ ci_gen k <> None.
+(* no consumer is cleared (empty allocations) by two different requests: the overtaken one would be a
+   no-op answered 204 where the serial execution answers 409 (known finding "double wipe") *)
+Definition single_wiper (reqs : list req) : Prop :=
+  forall i j ri rj c, nth_error reqs i = Some ri -> nth_error reqs j = Some rj ->
+    wipes ri c -> wipes rj c -> i = j.
+(* the serial reference execution runs each request to completion (run_req gives every request 1000
+   transactions, far more than any request of the bounded scope needs) *)
+Definition completes (cf : cfg) (reqs : list req) : Prop :=
+  forall r d0, In r reqs -> exists rs, snd (run_req cf r d0) = TDone rs.
 
 Theorem C07_serializable_partial :
   forall cf reqs s d ts' d',
     RI d -> ConsIff d -> Forest d ->
     (forall r, In r reqs -> in_scope r /\ req_wf r = true) ->
-    consumers_preexist reqs d ->
+    consumers_preexist reqs d -> single_wiper reqs -> completes cf reqs ->
     exec cf reqs s d = (ts', d') -> finished ts' ->
     exists order : list nat,
       NoDup order /\ (forall i, In i order <-> succeeded ts' i) /\
